@@ -19,6 +19,17 @@
 (*   "rank" : finite code r is the dense rank of the float among all the   *)
 (*            floats of the run (P-rank, DESIGN 2.4): order facts carry    *)
 (*            over exactly, arithmetic is judged by class only (ArithRank) *)
+(*   "sci"  : finite code = position of the float on a LATTICE of floats   *)
+(*            with few significant bits but the FULL exponent range of f64 *)
+(*            (subnormals, MIN_POSITIVE, the binades next to f64::MAX).    *)
+(*            The code is an order-preserving integer (so every order fact *)
+(*            carries over exactly) from which exponent and significand    *)
+(*            are recovered; the spec computes sums, products and          *)
+(*            quotients exactly on it, including gradual underflow         *)
+(*            (round to nearest, ties to even, at 2^-1074) and overflow,   *)
+(*            and so says which NUMBER every arithmetic operator has to    *)
+(*            hand out for operands of extreme magnitude.  A result that   *)
+(*            leaves the lattice is judged by its class (reply "off").     *)
 (*                                                                         *)
 (* The spec states the IDEAL: an arithmetic operator whose IEEE result is  *)
 (* NaN or -inf does not yield an objective value (reply "illegal").        *)
@@ -31,7 +42,9 @@ CONSTANTS M,        \* constructor inputs / scalar operands of the model: -M..M 
           B,        \* finite results are kept while |r| <= B (no overflow in the model)
           MaxList,  \* longest list handed to sort/min/max in the model
           VecDom,   \* component values of multi-objective vectors in the model
-          MaxVec    \* longest multi-objective vector in the model
+          MaxVec,   \* longest multi-objective vector in the model
+          SciIn,    \* positive lattice codes offered in mode "sci" ({}: the model runs in mode "exact")
+          SciNeg    \* those offered with a negative sign as well (a TLC configuration has no negative literals)
 
 NAN    == 2000000
 POSINF == 1000000
@@ -137,6 +150,143 @@ AbsOp(op, ca, cb) == CASE op = "neg" -> {FlipC(ca)}
                        [] op = "div" -> DivC(ca, cb)
 
 ---------------------------------------------------------------------------
+(* Mode "sci": arithmetic on operands of extreme magnitude, exactly.        *)
+(*                                                                          *)
+(* A binary floating-point format F = [pf, pl, lo, hi]: pf fraction bits,   *)
+(* smallest positive (subnormal) value 2^lo, largest exponent hi (so every  *)
+(* finite value is below 2^(hi+1)); f64 = [52, .., -1074, 1023].  The       *)
+(* LATTICE of F are its values with at most pl + 1 significant bits,        *)
+(*     2^e * (1 + f / 2^pl),   lo <= e <= hi,  0 <= f < 2^pl,               *)
+(* (those of them the format can represent: in the subnormal range the      *)
+(* lowest set bit must not lie below 2^lo), coded by the integer            *)
+(*     LCode = (e - lo) * 2^pl + f + 1          (negative values: -LCode,   *)
+(*                                               zero: 0)                   *)
+(* whose order is the numeric order.  All arithmetic below is on integers   *)
+(* below 2^30 (TLC's integers have 32 bits): significands and exponents.    *)
+(* The laws that say these definitions ARE correctly rounded IEEE           *)
+(* arithmetic are SciLaws at the end of the module (checked by TLC over     *)
+(* whole small formats).                                                    *)
+Fmt(pf, pl, lo, hi) == [pf |-> pf, pl |-> pl, lo |-> lo, hi |-> hi]
+F64  == Fmt(52, 8, -1074, 1023)
+OFFP == 2500000          \* a positive finite float that is not on the lattice
+OFFN == -2500000         \* a negative one
+P2(n) == 2^n             \* 0 <= n <= 30
+AbsI(x) == IF x < 0 THEN -x ELSE x
+BitLen(n) == CHOOSE b \in 1..30 : P2(b - 1) <= n /\ n < P2(b)          \* 1 <= n < 2^30
+
+LCode(F, e, f) == (e - F.lo) * P2(F.pl) + f + 1
+LMax(F)        == LCode(F, F.hi, P2(F.pl) - 1)
+\* a positive code c is the value LN * 2^LK
+LN(F, c) == P2(F.pl) + ((c - 1) % P2(F.pl))
+LK(F, c) == F.lo + ((c - 1) \div P2(F.pl)) - F.pl
+\* c is the code of a value of the format (or zero)
+LatOK(F, c) == LET m == AbsI(c) IN
+    \/ c = 0
+    \/ /\ m <= LMax(F)
+       /\ LK(F, m) < F.lo => LN(F, m) % P2(F.lo - LK(F, m)) = 0
+
+(* The float nearest to the magnitude N * 2^k, N >= 1 (ties to even; gradual *)
+(* underflow; overflow).  inx = FALSE: the magnitude is exactly N * 2^k;     *)
+(* inx = TRUE: N is odd, N >= 3, and the magnitude lies strictly between     *)
+(* (N - 1) * 2^k and (N + 1) * 2^k (a quotient with a remainder: sticky bit).*)
+(* Reply [t, n, k]: t = "fin": the float n * 2^k (n = 0: zero), "inf":       *)
+(* overflow, "off": a float with more significant bits than the lattice has  *)
+(* (an inexact quotient of two lattice values differs from every lattice     *)
+(* value by more than 2^-(2 pl + 2) of itself, which rounding to more than   *)
+(* 2 pl + 4 bits cannot bridge), "unk": not determined by the bits at hand.  *)
+RR(t, n, k) == [t |-> t, n |-> n, k |-> k]
+RoundMag(F, N, k, inx) ==
+    LET bl == BitLen(N)
+        e  == k + bl - 1                                   \* 2^e <= magnitude < 2^(e+1)
+        u  == IF e - F.pf > F.lo THEN e - F.pf ELSE F.lo   \* exponent of the last bit that is kept
+        sh == u - k IN
+    IF e > F.hi THEN RR("inf", 0, 0)
+    ELSE IF sh <= 0 THEN (IF ~inx THEN RR("fin", N, k)
+                          ELSE IF F.pf >= 2 * F.pl + 4 /\ bl >= 2 * F.pl + 5 THEN RR("off", 0, 0)
+                          ELSE RR("unk", 0, 0))
+    ELSE IF inx /\ sh < 2 THEN RR("unk", 0, 0)
+    ELSE IF sh > bl + 1 THEN RR("fin", 0, u)               \* below a quarter of the smallest step
+    ELSE LET q    == N \div P2(sh)
+             r    == N % P2(sh)
+             half == P2(sh - 1)
+             q2   == IF r > half \/ (r = half /\ q % 2 = 1) THEN q + 1 ELSE q IN
+         IF q2 = 0 THEN RR("fin", 0, u)
+         ELSE IF u + BitLen(q2) - 1 > F.hi THEN RR("inf", 0, 0)
+         ELSE RR("fin", q2, u)
+
+\* lattice code of the float n * 2^k (n >= 1), OFFP if it has more than pl + 1 significant bits
+EncodeMag(F, n, k) ==
+    LET bl == BitLen(n)
+        w  == F.pl + 1 IN
+    IF bl <= w THEN LCode(F, k + bl - 1, n * P2(w - bl) - P2(F.pl))
+    ELSE IF n % P2(bl - w) # 0 THEN OFFP
+    ELSE LCode(F, k + bl - 1, (n \div P2(bl - w)) - P2(F.pl))
+
+\* magnitude result: a code, 0, POSINF, OFFP, or NoVal (not determined)
+Finish(F, r) == IF r.t = "inf" THEN POSINF
+                ELSE IF r.t = "unk" THEN NoVal
+                ELSE IF r.t = "off" THEN OFFP
+                ELSE IF r.n = 0 THEN 0
+                ELSE EncodeMag(F, r.n, r.k)
+Signed(s, m) == IF m = NoVal \/ s > 0 THEN m ELSE IF m = POSINF THEN NEGINF ELSE -m
+
+\* product / quotient / sum of two non-zero lattice values (signed codes)
+LMul(F, a, b) ==
+    LET x == AbsI(a)  y == AbsI(b) IN
+    Signed(Sg(a) * Sg(b), Finish(F, RoundMag(F, LN(F, x) * LN(F, y), LK(F, x) + LK(F, y), FALSE)))
+
+\* quotient bits computed before the sticky bit: enough to round (pf + 4), or enough to know that an
+\* inexact quotient is off the lattice (2 pl + 4)
+DivBits(F) == IF F.pf < 2 * F.pl THEN F.pf + 4 ELSE 2 * F.pl + 4
+\* rounded magnitude of x / y from s quotient bits and a sticky bit
+DivAt(F, x, y, s) ==
+    LET num == LN(F, x) * P2(s)
+        q   == num \div LN(F, y)
+        rem == num % LN(F, y)
+        k   == LK(F, x) - LK(F, y) - s IN
+    IF rem = 0 THEN RoundMag(F, q, k, FALSE) ELSE RoundMag(F, 2 * q + 1, k - 1, TRUE)
+\* (a quotient that has to be cut right at the sticky bit is computed with one bit more)
+LDiv(F, a, b) ==
+    LET x == AbsI(a)  y == AbsI(b)
+        r == DivAt(F, x, y, DivBits(F)) IN
+    Signed(Sg(a) * Sg(b), Finish(F, IF r.t = "unk" THEN DivAt(F, x, y, DivBits(F) + 1) ELSE r))
+
+(* Sum.  Summands at most AlignMax binades apart are added exactly.  Further apart (d = distance  *)
+(* of the exponents, |b| < |a|): from d = pf + 3 on, b is below a quarter of a's last place and the  *)
+(* sum is a; up to d = pf, b is at least one unit of a's last place, so the sum is not a, and it    *)
+(* differs from a by less than 2^(2 - d) |a|, while lattice values differ from a by at least        *)
+(* 2^(-pl - 1) |a|: it is off the lattice (d >= pl + 3), with the sign of a.  In between            *)
+(* (d = pf + 1, pf + 2) ties decide: not determined here.                                           *)
+AlignMax(F) == IF F.pl + 4 < 18 THEN F.pl + 4 ELSE 18
+LAdd(F, a, b) ==
+    LET x  == AbsI(a)  y == AbsI(b)
+        ka == LK(F, x)  kb == LK(F, y)
+        d  == AbsI(ka - kb)
+        km == IF ka < kb THEN ka ELSE kb
+        big == IF ka > kb THEN a ELSE b IN
+    IF d > AlignMax(F)
+    THEN (IF d >= F.pf + 3 THEN big
+          ELSE IF d <= F.pf THEN Signed(Sg(big), OFFP)
+          ELSE NoVal)
+    ELSE LET sum == Sg(a) * LN(F, x) * P2(ka - km) + Sg(b) * LN(F, y) * P2(kb - km) IN
+         IF sum = 0 THEN 0
+         ELSE Signed(Sg(sum), Finish(F, RoundMag(F, AbsI(sum), km, FALSE)))
+
+\* IEEE on the carrier of mode "sci": the special cases as above, finite non-zero operands on the lattice
+Plain(a) == a # NAN /\ IsFin(a) /\ a # 0
+SciAdd(a, b) == IF Plain(a) /\ Plain(b) THEN LAdd(F64, a, b) ELSE AddE(a, b)
+SciMul(a, b) == IF Plain(a) /\ Plain(b) THEN LMul(F64, a, b) ELSE MulE(a, b)
+SciDiv(a, b) == IF Plain(a) /\ Plain(b) THEN LDiv(F64, a, b) ELSE DivE(a, b)
+SciOp(op, a, b) == CASE op = "neg" -> NegE(a)
+                     [] op = "add" -> SciAdd(a, b)
+                     [] op = "sub" -> SciAdd(a, NegE(b))
+                     [] op = "mul" -> SciMul(a, b)
+                     [] op = "div" -> SciDiv(a, b)
+IsOff(r) == r \in {OFFP, OFFN}
+\* an operand / input of mode "sci"
+SciArg(v) == v \in {NAN, NEGINF, POSINF} \/ LatOK(F64, v)
+
+---------------------------------------------------------------------------
 (* Comparison as the code does it: derived PartialOrd on the f64, and      *)
 (* Ord::cmp = partial_cmp().unwrap().   -1 / 0 / 1, 2 = None, 3 = panic.   *)
 PartialCmpF(a, b) == IF a = NAN \/ b = NAN THEN 2
@@ -216,11 +366,15 @@ TryFrom(x, cx) ==
 Const ==   \* SingleObjective::INFINITY, SingleObjective::default()
     res' = RC("ok", POSINF, "posinf") /\ vals' = vals \cup {POSINF}
 
-\* exact arithmetic (mode "exact"): the IDEAL operator never yields an illegal value
+\* exact arithmetic (modes "exact" and "sci"): the IDEAL operator hands out the numeric result,
+\* and never an illegal value.  A result that leaves the lattice of mode "sci" is a legal finite
+\* value the carrier has no code for: reply "off" with its sign, not tracked in vals.
+Raw(op, a, b) == IF mode = "sci" THEN SciOp(op, a, b) ELSE IEEE(op, a, b)
 Arith(op, a, b) ==
-    LET r == IEEE(op, a, b) IN
-    /\ r # NoVal                       \* quotient representable
-    /\ IF IsLegal(r) THEN res' = RC("val", r, ClassOf(r)) /\ vals' = vals \cup {r}
+    LET r == Raw(op, a, b) IN
+    /\ r # NoVal                       \* quotient representable / result determined
+    /\ IF IsOff(r) THEN res' = RC("off", NoVal, ClassOf(r)) /\ UNCHANGED vals
+       ELSE IF IsLegal(r) THEN res' = RC("val", r, ClassOf(r)) /\ vals' = vals \cup {r}
        ELSE res' = RC("illegal", NoVal, NoC) /\ UNCHANGED vals
 
 \* class-level arithmetic (mode "rank"): w = the observed result [k, v, c, s]; its rank is
@@ -278,6 +432,7 @@ MCmp(f, u, v) == res' = MCmpReply(f, u, v) /\ UNCHANGED vals
 MIsFinite(u)  == res' = R("bool", Bool(\A i \in DOMAIN u : IsFin(u[i]))) /\ UNCHANGED vals
 
 IsArith(a) == a.op \in ArithOps
+ExactModes == {"exact", "sci"}        \* the spec computes the result of an arithmetic operator itself
 CO(v) == IF v = NoVal THEN NoC ELSE ClassOf(v)
 \* a logged class agrees with the code of the value on the three specials
 SpecialOK(v, c) == /\ (c = "nan") = (v = NAN) /\ (c = "neginf") = (v = NEGINF)
@@ -289,14 +444,15 @@ LegalVec(u) == \A i \in DOMAIN u : IsLegal(u[i])
 Do(a) ==
     /\ act' = a
     /\ UNCHANGED mode
-    /\ (mode = "exact" /\ (IsArith(a) \/ a.op = "try_from")) => (a.ca = CO(a.a) /\ a.cb = CO(a.b))
+    /\ (mode \in ExactModes /\ (IsArith(a) \/ a.op = "try_from")) => (a.ca = CO(a.a) /\ a.cb = CO(a.b))
+    /\ (mode = "sci" /\ (IsArith(a) \/ a.op = "try_from")) => (SciArg(a.a) /\ (a.b = NoVal \/ SciArg(a.b)))
     /\ CASE a.op = "try_from"  -> SpecialOK(a.a, a.ca) /\ TryFrom(a.a, a.ca)
          [] a.op \in {"infinity", "default"} -> Const
-         [] a.op = "neg"       -> mode = "exact" /\ a.a \in vals /\ Arith("neg", a.a, NoVal)
+         [] a.op = "neg"       -> mode \in ExactModes /\ a.a \in vals /\ Arith("neg", a.a, NoVal)
          [] a.op \in {"add", "sub"} ->
-                mode = "exact" /\ a.a \in vals /\ a.b \in vals /\ Arith(a.op, a.a, a.b)
+                mode \in ExactModes /\ a.a \in vals /\ a.b \in vals /\ Arith(a.op, a.a, a.b)
          [] a.op \in {"mul", "div"} ->
-                mode = "exact" /\ a.a \in vals /\ Arith(a.op, a.a, a.b)      \* b: raw f64 scalar
+                mode \in ExactModes /\ a.a \in vals /\ Arith(a.op, a.a, a.b)   \* b: raw f64 scalar
          [] a.op = "cmp"       -> a.a \in vals /\ a.b \in vals /\ Cmp(a.f, a.a, a.b)
          [] a.op \in {"min", "max"} -> a.a \in vals /\ a.b \in vals /\ MinMax(a.op, a.a, a.b)
          [] a.op = "is_finite" -> a.a \in vals /\ IsFinite(a.a)
@@ -324,6 +480,23 @@ DoRank(a, w) ==
     /\ IF a.op = "neg" THEN a.cb = NoC ELSE SpecialOK(a.b, a.cb)
     /\ a.op \in {"add", "sub"} => a.cb \in LegalClasses
     /\ ArithRank(a.op, a.ca, a.cb, w)
+
+\* mode "sci", result not determined by the lattice arithmetic (summands 53 or 54 binades apart):
+\* finite, judged by class with the observed result as witness
+DoSciLoose(a, w) ==
+    /\ act' = a
+    /\ UNCHANGED mode
+    /\ mode = "sci"
+    /\ a.op \in {"add", "sub"}
+    /\ a.a \in vals /\ a.b \in vals
+    /\ SciArg(a.a) /\ SciArg(a.b) /\ a.ca = CO(a.a) /\ a.cb = CO(a.b)
+    /\ SciOp(a.op, a.a, a.b) = NoVal
+    /\ res' = w
+    /\ \/ /\ w.k = "val" /\ w.c \in AbsOp(a.op, a.ca, a.cb) \cap {"neg", "zero", "pos"}
+          /\ LatOK(F64, w.v) /\ w.c = CO(w.v) /\ w.s = <<>>
+          /\ vals' = vals \cup {w.v}
+       \/ /\ w = RC("off", NoVal, w.c) /\ w.c \in AbsOp(a.op, a.ca, a.cb) \cap {"neg", "pos"}
+          /\ UNCHANGED vals
 
 ---------------------------------------------------------------------------
 (* The bounded call alphabet of the model.                                 *)
@@ -360,15 +533,30 @@ MActs ==
 
 InitAct == A("init", "-", NoVal, NoVal, NoC, NoC, E, E)
 
+(* Mode "sci" (SciIn # {}): construction of at most two values out of SciIn, zero and the      *)
+(* specials, then every arithmetic operator once on them (scalars of * and / from the same      *)
+(* set): all operand pairs of extreme magnitude, results not fed back.                          *)
+SciInputs == {NAN, NEGINF, POSINF, 0} \cup SciIn \cup {-c : c \in SciNeg}
+SciActs ==
+    {A("try_from", "-", x, NoVal, CO(x), NoC, E, E) :
+         x \in {y \in SciInputs : IsLegal(y) => Cardinality(vals \cup {y}) <= 2}}
+    \cup (IF vals \subseteq SciInputs /\ Cardinality(vals) <= 2
+          THEN {A("neg", "-", a, NoVal, CO(a), NoC, E, E) : a \in vals}
+               \cup {A(op, "-", a, b, CO(a), CO(b), E, E) : op \in {"add", "sub"}, a \in vals, b \in vals}
+               \cup {A(op, "-", a, b, CO(a), CO(b), E, E) : op \in {"mul", "div"}, a \in vals, b \in SciInputs}
+          ELSE {})
+
 Init == /\ vals = {}
-        /\ mode = "exact"
+        /\ mode = (IF SciIn = {} THEN "exact" ELSE "sci")
         /\ act = InitAct
         /\ res = R("ok", NoVal)
 
 \* results leaving the bound are not explored ("arguments are kept small"); multi-objective
 \* calls do not depend on vals and are explored from the initial state only
-Next == \/ \E a \in Acts : (IsArith(a) => InBound(IEEE(a.op, a.a, a.b))) /\ Do(a)
-        \/ vals = {} /\ \E a \in MActs : Do(a)
+Next == IF SciIn = {}
+        THEN \/ \E a \in Acts : (IsArith(a) => InBound(IEEE(a.op, a.a, a.b))) /\ Do(a)
+             \/ vals = {} /\ \E a \in MActs : Do(a)
+        ELSE \E a \in SciActs : Do(a)
 
 Spec == Init /\ [][Next]_vars
 
@@ -377,7 +565,7 @@ Spec == Init /\ [][Next]_vars
 
 TypeOK == /\ vals \subseteq (Int \ {NoVal})
           /\ res.k \in {"ok", "err_nan", "err_neginf", "val", "illegal", "ord", "bool", "panic",
-                        "list", "none", "idx", "found", "insert"}
+                        "list", "none", "idx", "found", "insert", "off"}
 
 \* Objective values obtainable through the public API are never NaN or -inf.
 Legal == vals \cap {NAN, NEGINF} = {}
@@ -385,7 +573,8 @@ Legal == vals \cap {NAN, NEGINF} = {}
 \* ... and no reply hands one out either.
 LegalReplies ==
     [][ /\ (res'.k \in {"ok", "val"} /\ ~IsMulti(act')) => IsLegal(res'.v)
-        /\ res'.k \in {"ok", "list"} => \A i \in DOMAIN res'.s : IsLegal(res'.s[i]) ]_vars
+        /\ res'.k \in {"ok", "list"} => \A i \in DOMAIN res'.s : IsLegal(res'.s[i])
+        /\ res'.k = "off" => res'.c \in {"neg", "pos"} ]_vars      \* a finite value without a code
 
 \* construction: exactly the NaN / -inf inputs are refused, everything else is kept as is
 ConstructionExact ==
@@ -499,9 +688,99 @@ ParetoLaws(V) ==
           /\ (ParetoF(u, v) = -1 /\ ParetoF(v, w) = -1) => ParetoF(u, w) = -1     \* transitive
           /\ (ParetoF(u, v) \in {-1, 0} /\ ParetoF(v, w) \in {-1, 0}) => ParetoF(u, w) \in {-1, 0}
 
+---------------------------------------------------------------------------
+(* Arithmetic on operands of extreme magnitude hands out the NUMBER.        *)
+(*                                                                          *)
+(* (1) Identities every correctly rounded arithmetic obeys, whatever the    *)
+(* magnitude of x: x * 1 = x / 1 = x, x * -1 = x / -1 = -x (where legal),   *)
+(* x / x = 1 and x - x = 0 for finite non-zero x, x + x = x * 2,            *)
+(* x / 2 = x * 0.5 -- stated on (call, reply) only.                         *)
+One  == LCode(F64, 0, 0)
+Two  == LCode(F64, 1, 0)
+Half == LCode(F64, -1, 0)
+Gives(v) == IF IsOff(v) THEN res'.k = "off"
+            ELSE IF IsLegal(v) THEN res'.k = "val" /\ res'.v = v
+            ELSE res'.k = "illegal"
+SciIdentities ==
+    [][ (mode = "sci" /\ IsArith(act')) =>
+          LET op == act'.op  a == act'.a  b == act'.b IN
+          /\ (op \in {"mul", "div"} /\ b = One) => Gives(a)
+          /\ (op \in {"mul", "div"} /\ b = -One) => Gives(NegE(a))
+          /\ (op = "div" /\ b = a /\ Plain(a)) => Gives(One)
+          /\ (op = "sub" /\ b = a /\ IsFin(a)) => Gives(0)
+          /\ (op = "add" /\ b = 0) => Gives(a)
+          /\ (op = "add" /\ b = a) => Gives(SciMul(a, Two))
+          /\ (op = "div" /\ b = Two) => Gives(SciMul(a, Half))
+          /\ (res'.k = "val" /\ res'.c \in {"neg", "zero", "pos"}) => LatOK(F64, res'.v) ]_vars
+
+(* (2) The lattice arithmetic IS correctly rounded arithmetic of the format: *)
+(* for every pair of lattice values of a small format F the result is the    *)
+(* format value nearest to the exact rational result, ties going to the even *)
+(* significand, below the smallest subnormal to zero or to it, from          *)
+(* 2^(hi+1) - half a step on to infinity; results with more than pl + 1      *)
+(* significant bits are reported as off the lattice with the right sign.     *)
+(* Stated with rationals scaled to integers, without any of the definitions  *)
+(* above except the code <-> value map (whose monotonicity is part of it).   *)
+LatCodes(F) == {c \in 1..LMax(F) : LatOK(F, c)}
+\* candidates <<q, u>> = q * 2^u: zero, subnormals and the first normal binade at u = lo, the normal
+\* binades above, and 2^(hi+1), which stands for infinity
+FCands(F) ==
+    {<<q, F.lo>> : q \in 0..(P2(F.pf + 1) - 1)}
+    \cup {<<q, u>> : q \in P2(F.pf)..(P2(F.pf + 1) - 1), u \in (F.lo + 1)..(F.hi - F.pf)}
+    \cup {<<P2(F.pf), F.hi - F.pf + 1>>}
+\* the candidate nearest to xn / xd (> 0), all candidates scaled by 2^-z
+MinI(S) == CHOOSE x \in S : \A y \in S : x <= y
+Nearest(F, xn, xd, z) ==
+    LET Dist(c) == AbsI(xn - c[1] * P2(c[2] - z) * xd)
+        m    == MinI({Dist(c) : c \in FCands(F)})
+        best == {c \in FCands(F) : Dist(c) = m} IN
+    IF Cardinality(best) = 1 THEN CHOOSE c \in best : TRUE
+    ELSE CHOOSE c \in best : c[1] % 2 = 0
+\* r (magnitude reply of the lattice arithmetic) says what the correctly rounded result c is
+Agrees(F, r, c) ==
+    LET z0  == F.lo - F.pl
+        LV(k) == LN(F, k) * P2(LK(F, k) - z0)
+        cv  == c[1] * P2(c[2] - z0)
+        same == {k \in LatCodes(F) : LV(k) = cv} IN
+    IF c[1] = 0 THEN r = 0
+    ELSE IF c[2] = F.hi - F.pf + 1 THEN r = POSINF
+    ELSE IF same = {} THEN r = OFFP
+    ELSE r \in same
+Mag(r) == IF r = NEGINF THEN POSINF ELSE IF r = NoVal \/ r = POSINF THEN r ELSE AbsI(r)
+SgR(r) == IF r = NEGINF \/ (r # NoVal /\ r < 0) THEN -1 ELSE 1
+SciLaws(F) ==
+    LET C  == LatCodes(F)
+        z0 == F.lo - F.pl
+        LV(k) == LN(F, k) * P2(LK(F, k) - z0) IN
+    /\ \A a \in C, b \in C : (a < b) <=> (LV(a) < LV(b))                 \* the code order is the numeric order
+    /\ \A a \in C : EncodeMag(F, LN(F, a), LK(F, a)) = a
+    /\ \A a \in C, b \in C :
+          \* product: exact value LN(a) LN(b) 2^(LK(a) + LK(b)); scale 2^(2 z0)
+          /\ Agrees(F, LMul(F, a, b),
+                    Nearest(F, LN(F, a) * LN(F, b) * P2(LK(F, a) + LK(F, b) - 2 * z0), 1, 2 * z0))
+          /\ LMul(F, -a, b) = Signed(-1, LMul(F, a, b)) /\ LMul(F, -a, -b) = LMul(F, a, b)
+          \* quotient: LN(a) 2^(LK(a) - LK(b)) / LN(b); scale 2^zd
+          /\ LET zd == F.lo - F.hi - F.pl - 1 IN
+             Agrees(F, LDiv(F, a, b), Nearest(F, LN(F, a) * P2(LK(F, a) - LK(F, b) - zd), LN(F, b), zd))
+          /\ LDiv(F, a, -b) = Signed(-1, LDiv(F, a, b)) /\ LDiv(F, -a, -b) = LDiv(F, a, b)
+          \* sum and difference; scale 2^z0
+          /\ \A sb \in {-1, 1} :
+                LET x == LV(a) + sb * LV(b)
+                    r == LAdd(F, a, sb * b) IN
+                IF x = 0 THEN r = 0
+                ELSE IF r = NoVal THEN AbsI(LK(F, a) - LK(F, b)) \in {F.pf + 1, F.pf + 2}   \* the only gap
+                ELSE /\ SgR(r) = Sg(x)
+                     /\ Agrees(F, Mag(r), Nearest(F, AbsI(x), 1, z0))
+                     /\ LAdd(F, -a, -sb * b) = Signed(-1, r)
+
 \* the class-level arithmetic used for arbitrary floats abstracts the exact one
 AbsSound(S) ==
     \A op \in ArithOps : \A a \in S : \A b \in S :
         IEEE(op, a, b) # NoVal => ClassOf(IEEE(op, a, b)) \in AbsOp(op, ClassOf(a), ClassOf(b))
+
+\* ... and the lattice one (S: codes of mode "sci")
+SciAbsSound(S) ==
+    \A op \in ArithOps : \A a \in S : \A b \in S :
+        SciOp(op, a, b) # NoVal => ClassOf(SciOp(op, a, b)) \in AbsOp(op, ClassOf(a), ClassOf(b))
 
 =============================================================================
